@@ -69,7 +69,7 @@ def _same_lon(env, got, want):
     return near(env, got, want, rel=0.0, abs_=1e-9, ctol=0.0, catol=1e-9)
 
 
-@harness(P, quick=grid(ns=[2], dconv=[360, 180], qconv=[360, 180]), thorough=grid(ns=[3], dconv=[360, 180], qconv=[360, 180]), max_paths=4000, time_budget=300, hard_timeout=700, time_budget_thorough=2400, hard_timeout_thorough=2700)
+@harness(P, quick=grid(ns=[2], dconv=[360, 180], qconv=[360, 180]), thorough=grid(ns=[3], dconv=[360, 180], qconv=[360, 180]), max_paths=4000, time_budget=300, hard_timeout=600, time_budget_thorough=2400, hard_timeout_thorough=2700)
 def nearest(env, ns, dconv, qconv):
     """nearest: the station at minimum circular distance, AssertionError iff that distance exceeds the tolerance;
     longitudes reported in the query's convention."""
@@ -103,7 +103,7 @@ def _nearest_claims(env, ds, slon, slat, ns, qconv, note=""):
 
 
 @harness(P, quick=[dict(ns=2, dconv=360, first="bbox", fconv=180, qconv=360), dict(ns=2, dconv=180, first="bbox", fconv=360, qconv=180), dict(ns=2, dconv=360, first="nearest", fconv=180, qconv=360)],
-         thorough=grid(ns=[2, 3], dconv=[360, 180], first=["bbox", "nearest"], fconv=[360, 180], qconv=[360, 180]), max_paths=4000, time_budget=300, hard_timeout=700, time_budget_thorough=1800, hard_timeout_thorough=2100)
+         thorough=grid(ns=[2, 3], dconv=[360, 180], first=["bbox", "nearest"], fconv=[360, 180], qconv=[360, 180]), max_paths=4000, time_budget=300, hard_timeout=600, time_budget_thorough=1800, hard_timeout_thorough=2100)
 def nearest_after(env, ns, dconv, first, fconv, qconv):
     """the same claims as `nearest` for a selection made AFTER an earlier selection on the same dataset object
     (a fixed box over part of the globe, or a fixed nearest query with a tolerance that accepts everything) in convention `fconv`:
@@ -136,7 +136,7 @@ def _lon_ok(env, got, src, qconv):
 
 
 @harness(P, quick=[dict(ns=2, dconv=360, qconv=180, max_sites=4), dict(ns=2, dconv=180, qconv=360, max_sites=4), dict(ns=2, dconv=360, qconv=360, max_sites=1)],
-         thorough=grid(ns=[2], dconv=[360, 180], qconv=[360, 180], max_sites=[4]) + grid(ns=[3], dconv=[360, 180], qconv=[360, 180], max_sites=[2, 4]), max_paths=4000, time_budget=300, hard_timeout=700, time_budget_thorough=2400, hard_timeout_thorough=2700)
+         thorough=grid(ns=[2], dconv=[360, 180], qconv=[360, 180], max_sites=[4]) + grid(ns=[3], dconv=[360, 180], qconv=[360, 180], max_sites=[2, 4]), max_paths=4000, time_budget=300, hard_timeout=600, time_budget_thorough=2400, hard_timeout_thorough=2700)
 def idw(env, ns, dconv, qconv, max_sites):
     """idw: convex combination of up to max_sites stations within tolerance, weights ~ 1/distance; the station itself at
     zero distance; missing with fewer than two stations in range."""
@@ -197,7 +197,7 @@ def idw(env, ns, dconv, qconv, max_sites):
     env.claim(_lon_ok(env, glon, qlon, qconv), "idw reports the query longitude in the query's convention")
 
 
-@harness(P, quick=grid(ns=[2], dconv=[360, 180], qconv=[360, 180]), thorough=grid(ns=[3], dconv=[360, 180], qconv=[360, 180]), max_paths=6000, time_budget=600, hard_timeout=1200, time_budget_thorough=2400, hard_timeout_thorough=2700)
+@harness(P, quick=grid(ns=[2], dconv=[360, 180], qconv=[360, 180]), thorough=grid(ns=[3], dconv=[360, 180], qconv=[360, 180]), max_paths=6000, time_budget=330, hard_timeout=600, time_budget_thorough=2400, hard_timeout_thorough=2700)
 def bbox(env, ns, dconv, qconv):
     """bbox: exactly the stations whose position, longitude expressed in the query's convention, lies in
     [min(lons)-tol, max(lons)+tol] x [min(lats)-tol, max(lats)+tol]; ValueError iff there is none."""
